@@ -716,6 +716,10 @@ class _ExprNorm(ast.NodeTransformer):
                 and isinstance(node.args[0].elt, ast.Tuple) and len(node.args[0].elt.elts) == 2:
             g = node.args[0]
             return ast.copy_location(ast.DictComp(key=g.elt.elts[0], value=g.elt.elts[1], generators=g.generators), node)
+        # consumers that only iterate their argument in order: a list comprehension and a generator are the same
+        if len(node.args) == 1 and not node.keywords and isinstance(node.args[0], ast.ListComp) and \
+                ((isinstance(node.func, ast.Attribute) and node.func.attr == "join") or f.split(".")[-1] in ("Counter", "sum", "any", "all", "sorted", "set", "frozenset", "min", "max", "dict", "tuple", "list")):
+            node.args[0] = ast.copy_location(ast.GeneratorExp(elt=node.args[0].elt, generators=node.args[0].generators), node.args[0])
         # list(X) -> [*X], tuple(X) -> (*X,)
         if f in ("list", "tuple") and len(node.args) == 1 and not node.keywords and not isinstance(node.args[0], ast.Starred):
             st = ast.Starred(value=node.args[0], ctx=ast.Load())
